@@ -227,6 +227,10 @@ class Interp:
             return sym.str_elem(v.s)
         if isinstance(v, VRef):
             return sym.f_obj_elem(v.t)
+        if isinstance(v, (VObj, VDict)):
+            return sym.f_obj_elem(z3.Const('objloc_%d' % v.loc, sym.Obj))
+        if isinstance(v, VBool):
+            return z3.If(v.t, sym.str_elem('True'), sym.str_elem('False'))
         if isinstance(v, VAw):
             return sym.f_aw_elem(v.t)
         if isinstance(v, VTuple):
@@ -633,6 +637,11 @@ class Interp:
         raise Unsupported('attribute store on %r' % (obj,))
 
     def set_item(self, base, key, v):
+        if isinstance(base, VObj) and self.st.heap[base.loc].cls == '__strdict__':
+            if not isinstance(key, VStr):
+                raise Unsupported('symbolic key into a string-keyed dict')
+            self.st.heap[base.loc] = self.st.heap[base.loc].with_field(key.s, v)
+            return
         if isinstance(base, VDict):
             return self.dict_set(base, key, v)
         if isinstance(base, VList):
@@ -823,6 +832,9 @@ class Interp:
 
     def expr_Dict(self, e, fr):
         if e.keys:
+            h = self.spec_funcs.get('dict_display')
+            if h is not None:
+                return h(self, [(self.eval(k, fr), self.eval(v, fr)) for k, v in zip(e.keys, e.values)])
             raise Unsupported('non-empty dict display')
         return self.st.new_dict(DictCell(None, None, None, None))     # typed on first store
 
@@ -831,6 +843,8 @@ class Interp:
         return self.get_attr(obj, e.attr, fr)
 
     def get_attr(self, obj, name, fr=None):
+        if isinstance(obj, VObj) and self.st.heap[obj.loc].cls == '__strdict__':
+            return VBound(obj, name)
         if isinstance(obj, VObj):
             cell = self.st.heap[obj.loc]
             if name in cell.fields:
@@ -844,6 +858,8 @@ class Interp:
             cv = self.index.class_attr(cell.cls, name)
             if cv is not None:
                 return cv
+            if (cell.cls + '.' + name) in self.summaries:
+                return VBound(obj, name)
             raise Unsupported('attribute %s of %s' % (name, cell.cls))
         if isinstance(obj, VRef):
             if obj.cls:
@@ -872,6 +888,13 @@ class Interp:
         return self.get_item(base, key)
 
     def get_item(self, base, key):
+        if isinstance(base, VObj) and self.st.heap[base.loc].cls == '__strdict__':
+            cell = self.st.heap[base.loc]
+            if not isinstance(key, VStr):
+                raise Unsupported('symbolic key into a string-keyed dict')
+            if key.s in cell.fields:
+                return cell.fields[key.s]
+            self.raise_('KeyError')
         if self.spec_mode and isinstance(base, VNone):
             return NONE         # undefined sub-term of a guarded clause
         if isinstance(base, VBuiltin) and base.name == '__builtins__':
@@ -934,6 +957,15 @@ class Interp:
         raise Unsupported('subscript of %r' % (base,))
 
     def get_slice(self, base, sl, fr):
+        if isinstance(base, VTuple):
+            def cv(e):
+                if e is None:
+                    return None
+                v = z3.simplify(self.num(self.eval(e, fr)))
+                if not z3.is_int_value(v):
+                    raise Unsupported('symbolic slice of a tuple display')
+                return v.as_long()
+            return VTuple(base.items[cv(sl.lower):cv(sl.upper):cv(sl.step)])
         t, k = self.seq_term(base)
         n = z3.Length(t)
         lo = self.eval(sl.lower, fr) if sl.lower is not None else None
@@ -1036,6 +1068,10 @@ class Interp:
         raise Unsupported('comparison')
 
     def contains(self, container, item):
+        if isinstance(container, VObj) and self.st.heap[container.loc].cls == '__strdict__':
+            if not isinstance(item, VStr):
+                raise Unsupported('symbolic key membership in a string-keyed dict')
+            return z3.BoolVal(item.s in self.st.heap[container.loc].fields)
         if isinstance(container, VDict):
             return self.dict_has(container, item)
         if isinstance(container, VSet):
@@ -1386,6 +1422,14 @@ class Interp:
 
     # ------------------------------------------------------------ methods of containers
     def call_method(self, recv, name, args, kwargs, fr):
+        if isinstance(recv, VObj) and self.st.heap[recv.loc].cls == '__strdict__':
+            if name == 'keys':
+                return recv
+            raise Unsupported('method %s of a string-keyed dict' % name)
+        if isinstance(recv, VObj):
+            h = self.summaries.get(self.st.heap[recv.loc].cls + '.' + name)
+            if h is not None:
+                return h(self, recv, args, kwargs)
         if isinstance(recv, VList):
             return self.list_method(recv, name, args, kwargs)
         if isinstance(recv, VDict):
